@@ -1,0 +1,208 @@
+//go:build verif
+
+package pool
+
+import (
+	"fmt"
+	"runtime"
+	"strings"
+	"sync"
+	"sync/atomic"
+	"unsafe"
+)
+
+// Lifecycle tracker for pooled messages (verification harness only, off until enabled):
+// per-object state machine acquired -> released, poison pattern written into the
+// message-owned buffers on release and verified when the object is handed out again, and
+// a registry of messages currently held by application code.
+
+const verifPoison = 0xDB
+
+type verifState struct {
+	released   bool
+	relPCs     []uintptr
+	unmarshalP *byte
+	valueP     *byte
+}
+
+var (
+	verifOn      atomic.Bool
+	verifMu      sync.Mutex
+	verifObjs    = map[uintptr]*verifState{}
+	verifHeld    = map[uintptr]string{}
+	verifReports []string
+	verifStats   struct{ acquires, releases, reuses, poisonChecked, poisoned atomic.Int64 }
+)
+
+// VerifTrackerEnable switches the tracker on or off and clears its state.
+func VerifTrackerEnable(on bool) {
+	verifMu.Lock()
+	verifObjs = map[uintptr]*verifState{}
+	verifHeld = map[uintptr]string{}
+	verifReports = nil
+	verifMu.Unlock()
+	verifOn.Store(on)
+}
+
+// VerifTrackerReports returns and clears the violation reports collected so far.
+func VerifTrackerReports() []string {
+	verifMu.Lock()
+	defer verifMu.Unlock()
+	r := verifReports
+	verifReports = nil
+	return r
+}
+
+// VerifTrackerStats returns (releases, reuses of a released object, buffers poison-checked, bytes poisoned).
+func VerifTrackerStats() (releases, reuses, poisonChecked, poisoned int64) {
+	return verifStats.releases.Load(), verifStats.reuses.Load(), verifStats.poisonChecked.Load(), verifStats.poisoned.Load()
+}
+
+// VerifHold marks m as held by application code (a response returned from a call, a request
+// inside a handler, a notification inside a callback). A release of a held message is reported.
+func VerifHold(m *Message, why string) {
+	verifMu.Lock()
+	verifHeld[uintptr(unsafe.Pointer(m))] = why
+	verifMu.Unlock()
+}
+
+// VerifUnhold ends the application's hold on m.
+func VerifUnhold(m *Message) {
+	verifMu.Lock()
+	delete(verifHeld, uintptr(unsafe.Pointer(m)))
+	verifMu.Unlock()
+}
+
+func verifStack(pcs []uintptr) string {
+	var sb strings.Builder
+	frames := runtime.CallersFrames(pcs)
+	for i := 0; i < 14; i++ {
+		f, more := frames.Next()
+		if f.Function != "" {
+			fmt.Fprintf(&sb, "    %s (%s:%d)\n", f.Function, f.File[strings.LastIndex(f.File, "/")+1:], f.Line)
+		}
+		if !more {
+			break
+		}
+	}
+	return sb.String()
+}
+
+func verifCallers() []uintptr {
+	pcs := make([]uintptr, 16)
+	n := runtime.Callers(3, pcs)
+	return pcs[:n]
+}
+
+func verifFirst(b []byte) *byte {
+	b = b[:cap(b)]
+	if len(b) == 0 {
+		return nil
+	}
+	return &b[0]
+}
+
+func verifFill(b []byte) {
+	b = b[:cap(b)]
+	for i := range b {
+		b[i] = verifPoison
+	}
+	verifStats.poisoned.Add(int64(len(b)))
+}
+
+func verifIntact(b []byte) int {
+	b = b[:cap(b)]
+	for i := range b {
+		if b[i] != verifPoison {
+			return i
+		}
+	}
+	return -1
+}
+
+func verifReport(s string) {
+	if len(verifReports) < 200 {
+		verifReports = append(verifReports, s)
+	}
+}
+
+// verifAcquire is called when a recycled object is handed out by the pool.
+func verifAcquire(_ *Pool, m *Message) {
+	if !verifOn.Load() {
+		return
+	}
+	verifStats.acquires.Add(1)
+	key := uintptr(unsafe.Pointer(m))
+	verifMu.Lock()
+	defer verifMu.Unlock()
+	st := verifObjs[key]
+	if st == nil {
+		return
+	}
+	if !st.released {
+		verifReport("pool-handed-out-live-message: a message that was not released was handed out by the pool")
+		return
+	}
+	verifStats.reuses.Add(1)
+	if st.unmarshalP != nil && st.unmarshalP == verifFirst(m.bufferUnmarshal) {
+		verifStats.poisonChecked.Add(1)
+		if i := verifIntact(m.bufferUnmarshal); i >= 0 {
+			verifReport(fmt.Sprintf("write-after-release: receive buffer of a released message was written at offset %d; released at:\n%s", i, verifStack(st.relPCs)))
+		}
+	}
+	if st.valueP != nil && st.valueP == verifFirst(m.origValueBuffer) {
+		verifStats.poisonChecked.Add(1)
+		if i := verifIntact(m.origValueBuffer); i >= 0 {
+			verifReport(fmt.Sprintf("write-after-release: option value buffer of a released message was written at offset %d; released at:\n%s", i, verifStack(st.relPCs)))
+		}
+	}
+	// hand the object out clean
+	for _, b := range [][]byte{m.bufferUnmarshal, m.origValueBuffer} {
+		b = b[:cap(b)]
+		for i := range b {
+			b[i] = 0
+		}
+	}
+	st.released = false
+}
+
+// verifRelease is called at the start of ReleaseMessage.
+func verifRelease(_ *Pool, m *Message) {
+	if !verifOn.Load() || m == nil {
+		return
+	}
+	verifStats.releases.Add(1)
+	key := uintptr(unsafe.Pointer(m))
+	pcs := verifCallers()
+	verifMu.Lock()
+	defer verifMu.Unlock()
+	if why, held := verifHeld[key]; held {
+		verifReport(fmt.Sprintf("released-while-application-holds-it (%s); released at:\n%s", why, verifStack(pcs)))
+	}
+	st := verifObjs[key]
+	if st == nil {
+		st = &verifState{}
+		verifObjs[key] = st
+		// drop the bookkeeping when the object itself is collected (the key does not keep it alive)
+		runtime.SetFinalizer(m, func(x *Message) {
+			verifMu.Lock()
+			delete(verifObjs, uintptr(unsafe.Pointer(x)))
+			verifMu.Unlock()
+		})
+	}
+	if st.released {
+		verifReport(fmt.Sprintf("double-release: message released twice without being re-acquired; second release at:\n%s  first release at:\n%s", verifStack(pcs), verifStack(st.relPCs)))
+		return
+	}
+	st.released = true
+	st.relPCs = pcs
+	// poison what the message owns: a later read by the library shows up as 0xDB content, a
+	// later write is found when the object is handed out again
+	verifFill(m.bufferUnmarshal)
+	verifFill(m.origValueBuffer)
+	if m.msg.Token != nil {
+		verifFill(m.msg.Token)
+	}
+	st.unmarshalP = verifFirst(m.bufferUnmarshal)
+	st.valueP = verifFirst(m.origValueBuffer)
+}
